@@ -275,6 +275,131 @@ def defect_probes():
     return safe_defect, notop_defect, (r, r2)
 
 
+def stateful_sequence(run, rng, hist, prop_fail, cases_d, meta_d, gdefs, bundle, S0, gname, gsrc, phi, unamb, pool, thorough):
+    """ONE solver object, a sequence of operations; every answer is compared with the (stateless) model
+    evaluated on that input alone: check/parse bundles, check of trees derived by replace_path (ancestor
+    ids kept; valid -> invalid -> back), repair/mutate of an already checked tree, and solvers derived by
+    copy_without_queue (other start symbol / sub-grammar) interleaved with the original in both orders."""
+    from returns.maybe import Some
+    grammar = S0.grammar
+    cg = canonical(grammar)
+    G = f"GR_{gname}"
+    trees = [(x, first_parse(grammar, x)) for x in dict.fromkeys(pool)]
+    trees = [(x, t, eval_obs(S0, t)) for x, t in trees if t is not None]
+    valid = [(x, t) for x, t, e in trees if e == ("ok", "TT")]
+    invalid = [(x, t) for x, t, e in trees if e == ("ok", "FF")]
+    if not trees:
+        return
+    hist["stateful_sequences"] = hist.get("stateful_sequences", 0) + 1
+    v1 = (valid or invalid or [(trees[0][0], None)])[0][0]
+    step = [0]
+
+    def tag(what):
+        step[0] += 1
+        return f"op{step[0]}:{what}"
+
+    def check_tree_case(t, what):
+        """S0.check(tree) against evaluate(tree) computed outside the solver"""
+        E = eval_obs(S0, t)
+        r = guarded(lambda: S0.check(t), 20)
+        if r[0] == "hang":
+            return E
+        o = ("ok", g_bool(r[1])) if r[0] == "ok" else ("raise", xname(r[1]))
+        exp = {"TT": ("ok", "true"), "FF": ("ok", "false"), "UU": ("raise", "OtherErr")}.get(E[1]) if E[0] == "ok" else ("raise", E[1])
+        w = {"grammar": gname, "constraint": phi, "input": str(t), "sequence_on_one_solver": tag(what)}
+        hist["derived_tree_checks"] = hist.get("derived_tree_checks", 0) + 1
+        run.count((gname, phi, "dtree", step[0], str(t)), E == ("ok", "FF"))
+        if o[1] is None:
+            prop_fail.append({"clause": "check(tree) raised an undocumented exception", "witness": w, "impl": repr(r[1])[:200]})
+            return E
+        if o != exp:
+            prop_fail.append({"clause": "check(tree) is true exactly when the tree satisfies the constraint, whatever was "
+                                        "checked on this solver before (history independence)", "witness": w,
+                              "evaluate": E, "impl": o})
+        cases_d.append(f"(@{'Ok' if E[0] == 'ok' else 'Raise'} tv {E[1]}, @{'Ok' if o[0] == 'ok' else 'Raise'} bool {o[1]})")
+        meta_d.append(dict(w, evaluate=E, impl=o))
+        return E
+
+    # 1. bundle on a (preferably valid) string; 2. keep the tree the solver itself returned, check it
+    bundle(S0, grammar, cg, G, v1, None, seq=tag("bundle"))
+    r = guarded(lambda: S0.parse(v1, skip_check=True, silent=True), 20)
+    t = r[1] if r[0] == "ok" else None
+    if t is not None:
+        e_t = check_tree_case(t, "check(parsed tree)")
+        # 3. derived trees: replace a subtree by a same-label subtree of another pool tree; root/ancestor ids are kept
+        others = [u for _, u, _ in trees]
+        cands = []
+        for path, sub in t.paths():
+            if not path or sub.children is None or not sub.value.startswith("<"):
+                continue
+            for u in others:
+                for _, r2 in u.paths():
+                    if r2.value == sub.value and r2.children is not None and not r2.structurally_equal(sub):
+                        cands.append((path, sub, r2))
+        rng.shuffle(cands)
+        flipped = same = 0
+        for path, sub, r2 in cands[:40]:
+            t2 = t.replace_path(path, r2)
+            e2 = eval_obs(S0, t2)
+            differs = e2 != e_t
+            if (differs and flipped >= (2 if thorough else 1)) or (not differs and same >= (1 if thorough else 0)):
+                continue
+            flipped += differs; same += (not differs)
+            check_tree_case(t2, "check(replace_path(checked tree))")
+            if thorough and unamb and e2[0] == "ok":
+                bundle(S0, grammar, cg, G, str(t2), None, seq=tag("bundle(str of derived tree)"))
+            check_tree_case(t2.replace_path(path, sub), "check(replace_path back)")
+        # 4. repair / mutate of the tree that was already checked on this solver
+        what = "mutate" if (thorough or hist.get("stateful_sequences", 0) % 3 == 0) else "repair"
+        bundle(S0, grammar, cg, G, v1, None, seq=tag(what + "(checked tree)"), rm_force=what, keep_tree=t)
+    # 5./6. copy with another start symbol after the original has parsed; then the original again
+    nts = [k for k in grammar if k != "<start>" and k not in grammar["<start>"]] or [k for k in grammar if k != "<start>"]
+    nt = rng.choice(nts)
+    subs = [str(sub) for _, u, _ in trees for _, sub in u.paths() if sub.value == nt] or [v1]
+    sub_s = rng.choice(subs)
+
+    def derived(origin, n, **kw):
+        try:
+            D = origin.copy_without_queue(**kw)
+        except Exception as e:
+            hist["copy_without_queue_raises"] = hist.get("copy_without_queue_raises", 0) + 1
+            return None
+        name = f"GR_{gname}_{n}_{nt.strip('<>')}"
+        gdefs.setdefault(name, f"Definition {name} : grammar := {g_grammar(canonical(D.grammar))}.\n")
+        return D, D.grammar, canonical(D.grammar), name
+    d1 = derived(S0, "sub", start_symbol=nt)
+    if d1:
+        bundle(*d1, v1, None, seq=tag(f"copy(start_symbol={nt}).bundle"), lenient=True)
+        if thorough:
+            bundle(*d1, sub_s, None, seq=tag(f"copy(start_symbol={nt}).bundle"), lenient=True)
+            bundle(S0, grammar, cg, G, sub_s, None, seq=tag("original.bundle after copy"))
+        bundle(S0, grammar, cg, G, v1, None, seq=tag("original.bundle after copy"))
+    # 7. the other order: the copy parses first, then a fresh original
+    if thorough or hist["stateful_sequences"] % 2 == 0:
+        S1 = ISLaSolver(gsrc, phi)
+        d3 = derived(S1, "sub", start_symbol=nt)
+        if d3:
+            bundle(*d3, sub_s, None, seq=tag(f"fresh.copy(start_symbol={nt}).bundle first"), lenient=True)
+            bundle(S1, grammar, cg, G, v1, None, seq=tag("fresh original.bundle after its copy parsed"))
+    # 8. copy over a sub-grammar (one terminal alternative dropped), interleaved with the original
+    if thorough or hist["stateful_sequences"] % 2 == 1:
+        import copy as _copy
+        other = _copy.deepcopy(grammar)
+        ks = [k for k in other if len(other[k]) >= 2 and "<" not in other[k][-1] and other[k][-1] != ""]
+        if ks:
+            k = ks[-1]
+            dropped = other[k].pop()
+            with_d = [x for x in dict.fromkeys(pool) if dropped in x] or [v1]
+            x = rng.choice(with_d)
+            saved_nt = nt
+            d2 = derived(S0, "less" + str(abs(hash(k)) % 97), grammar=Some(other))
+            if d2:
+                bundle(*d2, x, None, seq=tag(f"copy(grammar without {k} ::= {dropped!r}).bundle"), lenient=True)
+                bundle(S0, grammar, cg, G, x, None, seq=tag("original.bundle after sub-grammar copy"))
+                if thorough:
+                    bundle(*d2, v1, None, seq=tag("sub-grammar copy.bundle again"), lenient=True)
+
+
 def run(run):
     rng = random.Random(run.seed)
     thorough = run.tier == "thorough"
@@ -323,6 +448,8 @@ def run(run):
     solvers = 0
     gdefs = {}
     t_budget = time.time() + (900 if thorough else 50)
+    t_seq_budget = time.time() + (1200 if thorough else 100)
+    cases_d, meta_d = [], []          # check(tree) on trees derived by replace_path (ids kept), one solver, in sequence
 
     for gname, gsrc, unamb, constraints in FAMILY:
         for phi in constraints:
@@ -351,9 +478,10 @@ def run(run):
                     i = rng.randrange(len(s)); c = rng.choice(ALPHABET[gname])
                     s2 = rng.choice([s[:i] + c + s[i + 1:], s[:i] + s[i + 1:], s[:i] + c + s[i:]])
                     inputs.append((s2, None))
-            rep_left, mut_left = n_repair, (n_mutate if thorough or solvers % 2 == 1 else 0)
-            for s, ft in inputs:
-                key = (gname, phi, s)
+            left = {"rep": n_repair, "mut": (n_mutate if thorough or solvers % 2 == 1 else 0)}
+
+            def bundle(solver, grammar, cg, G, s, ft, seq="", rm_force=None, keep_tree=None, lenient=False):
+                key = (gname, phi, s, seq)
                 P = first_parse(grammar, s)
                 E = eval_obs(solver, P) if P is not None else None
                 member = in_lang(cg, "<start>", s)
@@ -379,11 +507,14 @@ def run(run):
                     o_ctree = api(lambda: solver.check(P), g_bool)
                     outs.append(("check_tree", o_ctree))
                 for nm, o in outs:
+                    if lenient and E is not None and E[0] == "raise":
+                        hist["derived_solver_evaluator_raises"] = hist.get("derived_solver_evaluator_raises", 0) + 1
+                        return
                     if o[0] == "hang" or (o[0] == "raise" and o[1] is None):
                         prop_fail.append({"clause": f"{nm} raised an undocumented exception / hung", "witness":
                                           {"grammar": gname, "constraint": phi, "input": s, "outcome": repr(o[2])[:200]}})
                 if any(o[0] == "hang" or (o[0] == "raise" and o[1] is None) for _, o in outs):
-                    continue
+                    return
 
                 def lit(o):
                     return f"(Ok {o[1]})" if o[0] == "ok" else f"(Raise {o[1]})"
@@ -400,7 +531,7 @@ def run(run):
                         if o_nt[0] == "hang" or (o_nt[0] == "raise" and o_nt[1] is None):
                             prop_fail.append({"clause": "parse(nonterminal=..) raised an undocumented exception / hung", "witness":
                                               {"grammar": gname, "constraint": phi, "input": ss, "nonterminal": st.value}})
-                            continue
+                            return
                         if (Pn is None) != (not in_lang(cg, st.value, ss)):
                             prop_fail.append({"clause": "parser accepts exactly the language (premise C10)",
                                               "witness": {"grammar": gname, "constraint": phi, "input": ss, "nonterminal": st.value}})
@@ -421,6 +552,8 @@ def run(run):
                 # ---- the property clauses, directly on the implementation (spec-side oracles:
                 #      in_lang for membership, evaluate for the constraint, wf_treeb below) ----
                 w = {"grammar": gname, "constraint": phi, "input": s}
+                if seq:
+                    w["sequence_on_one_solver"] = seq
                 if (P is None) != (not member):
                     prop_fail.append({"clause": "parser accepts exactly the language (premise C10)", "witness": w})
                 exp_check = member and E == ("ok", "TT")
@@ -450,26 +583,26 @@ def run(run):
                                               "witness": dict(w, tree=str(ft)), "on_tree": repr(o_ft[:2]), "on_string": repr(o_check[:2])})
 
                 # ---- repair / mutate with component traces ----
-                if P is not None and time.time() < t_budget and (
-                        (rep_left > 0 and (kind != "valid" or rng.random() < 0.3)) or mut_left > 0):
-                    do_mut = mut_left > 0 and (rep_left <= 0 or rng.random() < 0.3)
-                    inp_tree = first_parse(grammar, s)
+                if P is not None and time.time() < t_budget and (rm_force or (not seq and (
+                        (left["rep"] > 0 and (kind != "valid" or rng.random() < 0.3)) or left["mut"] > 0))):
+                    do_mut = (rm_force == "mutate") if rm_force else (left["mut"] > 0 and (left["rep"] <= 0 or rng.random() < 0.3))
+                    inp_tree = keep_tree if keep_tree is not None else first_parse(grammar, s)
                     with Trace(solver) as tr:
                         if do_mut:
-                            mut_left -= 1; hist["mutate_calls"] += 1
+                            left["mut"] -= 1; hist["mutate_calls"] += 1
                             random.seed(rng.randrange(1 << 30))
                             r = guarded(lambda: solver.mutate(inp_tree, 1, 3, fix_to), 12 if thorough else 6)
                         else:
-                            rep_left -= 1; hist["repair_calls"] += 1
+                            left["rep"] -= 1; hist["repair_calls"] += 1
                             random.seed(rng.randrange(1 << 30))
                             r = guarded(lambda: solver.repair(inp_tree, fix_to), 12 if thorough else 6)
                     what = "mutate" if do_mut else "repair"
                     if r[0] == "hang":
                         hist[what + "_hang"] += 1      # non-termination / long search: not an outcome to compare
-                        continue
+                        return
                     if r[0] == "raise" and xname(r[1]) is None:
                         prop_fail.append({"clause": f"{what} raised an undocumented exception", "witness": w, "impl": repr(r[1])[:200]})
-                        continue
+                        return
                     repaired = [inp_tree] if not do_mut else [m[1] for m in tr.mut if m[0] == "ok"]
                     ev, ab, sb, sm, mu = tr.tables(repaired)
                     HT = g_bool(has_top)
@@ -525,6 +658,13 @@ def run(run):
                         hist["raise_kinds"] = hist.get("raise_kinds", {})
                         hist["raise_kinds"][type(r[1]).__name__] = hist["raise_kinds"].get(type(r[1]).__name__, 0) + 1
 
+
+            for s, ft in inputs:
+                bundle(solver, grammar, cg, G, s, ft)
+            if time.time() < t_seq_budget and (thorough or solvers % 2 == 0):
+                stateful_sequence(run, rng, hist, prop_fail, cases_d, meta_d, gdefs, bundle, solver, gname, gsrc, phi, unamb,
+                                  [x for x, _ in inputs], thorough)
+
     run.cov.update(hist)
     run.cov["solvers"] = solvers
     run.cov["api_cases"] = len(cases_a)
@@ -542,12 +682,14 @@ def run(run):
             f"res_eqb struct_eqb (parse_api fp ev START {NT} false) on && "
             "match P with Some t => res_eqb Bool.eqb (check_tree ev t) ot | None => true end")
     import concurrent.futures as _cf
-    _ex = _cf.ThreadPoolExecutor(max_workers=3)
+    _ex = _cf.ThreadPoolExecutor(max_workers=4)
     ok_c = ("fun c : grammar * tree * str * option tree => let '(g, t, s, p) := c in "
             "wf_treeb g t && closedb t && str_eqb (yield t) s && str_eqb (lbl t) START && "
             "match p with Some u => eqvb t u | None => true end")
     fut_a = _ex.submit(lib.coq_mismatches, "c18a", "Api", ok_a, cases_a, 60)
     fut_b = _ex.submit(lib.coq_run_shards, "c18b", "Api", "fun b : bool => b", shards_b)
+    ok_d = ("fun c : res tv * res bool => res_eqb Bool.eqb (check_tree (fun _ => fst c) (Node [] 0%N false [])) (snd c)")
+    fut_d = _ex.submit(lib.coq_mismatches, "c18d", "Api", ok_d, cases_d, 400)
     fut_c = _ex.submit(lib.coq_mismatches, "c18c", "Api", ok_c, cases_c, 80, "".join(gdefs.values()))
     try:
         bad, dt = fut_a.result()
@@ -576,6 +718,15 @@ def run(run):
                                         "(and equals the parse of its string up to ids and epsilon shape)", "witness": meta_c[i]})
     except RuntimeError as e:
         run.violation({"kind": "correspondence-not-evaluable", "obligation": "wf_treeb on returned trees", "error": str(e)[-1500:]},
+                      found_input=False)
+
+    try:
+        bad, dt = fut_d.result()
+        run.cov["derived_tree_cases"] = len(cases_d)
+        for i in bad:
+            disagreements.append(dict(meta_d[i], kind="model != implementation (check on a tree derived with kept ids, one solver)"))
+    except RuntimeError as e:
+        run.violation({"kind": "correspondence-not-evaluable", "obligation": "Api.v check_tree on derived trees", "error": str(e)[-1500:]},
                       found_input=False)
 
     # ---- classify ----
